@@ -4,6 +4,8 @@ CONSTANTS
   MaxRetrans = 5
   MaxDeliveries = 30
   Rounds = 2
+  MaxSlow = 0
+  Recheck = TRUE
   MaxOps = 18
 INVARIANTS SuccessIsTrue AtMostOnceInOrder RetransIdentical Budget EmitAtEnd
 CHECK_DEADLOCK FALSE
